@@ -47,8 +47,10 @@ def floor_b(rep, prog, rule="FLOOR-B", only=None):
 
 
 def parse_order(rep, prog, rule="PARSE-ORDER"):
-    rep.rule(rule, "in TzifOwned::parse every Ok return is dominated by fatten(), then add_civil_datetimes_to_transitions(), "
-                   "then verify_posix_time_zone_consistency()? in this order")
+    rep.rule(rule, "in TzifOwned::parse every Ok return is dominated by fatten() followed by add_civil_datetimes_to_transitions() "
+                   "(the wall-clock table must cover the synthesised transitions too) and by verify_posix_time_zone_consistency()?, "
+                   "whose error is propagated; the position of the verification relative to fatten() is not constrained (today it runs "
+                   "after it, which makes it vacuous for footers with a DST rule when tz-fat is on: see DESIGN 9.7)")
     for crate in ("jiff", "jiff_static"):
         cands = [f for f in prog.fns.values() if f.crate == crate and f.path.endswith(">>::parse") and "shared::tzif::<impl shared::Tzif<" in f.path]
         if not cands:
@@ -68,12 +70,12 @@ def parse_order(rep, prog, rule="PARSE-ORDER"):
             rep.violation(rule, key, "expected exactly one call each of fatten/add_civil_datetimes_to_transitions/"
                           "verify_posix_time_zone_consistency and an Ok return (found %d/%d/%d, %d Ok blocks)" % (len(bf), len(ba), len(bv), len(oks)), f.loc())
             continue
-        good = cfg.dominates(bf[0], ba[0]) and cfg.dominates(ba[0], bv[0]) and all(cfg.dominates(bv[0], o) for o in oks)
+        good = cfg.dominates(bf[0], ba[0]) and all(cfg.dominates(ba[0], o) and cfg.dominates(bv[0], o) for o in oks)
         # the verification's error must be propagated: its Err edge reaches a return without passing an Ok block
         T = Terms(f)
         propagated = any(x[0] == "residual" and any(is_call(y, "verify_posix_time_zone_consistency") for y in walk(x)) for x in alts(T.returns()))
         if good and propagated:
-            rep.ok(rule, key, how="fatten -> add_civil_datetimes -> verify? dominate the Ok return")
+            rep.ok(rule, key, how="fatten -> add_civil_datetimes and verify? dominate the Ok return")
         else:
             rep.violation(rule, key, "order/dominance broken (dominance chain=%s, verification error propagated=%s)" % (good, propagated), f.loc())
 
@@ -355,12 +357,14 @@ def handover(rep, prog, rule="HANDOVER"):
                           "ahead of the instant: that transition is never yielded (and a footer without DST rule ends the iteration early)", loc)
         else:
             rep.ok(rule, key, how=show(bound, maxd=3)[:120], loc=loc)
+    # the index of the entry that is yielded: timestamps()[IDX] inside the returned Some(TimeZoneTransition { timestamp, .. })
     idx_alts = []
-    for bi, b in enumerate(f.blocks):
-        t = b["term"]
-        if t["t"] == "assert" and t["kind"] == "BoundsCheck" and any(is_call(y, "::timestamps") for y in walk(T.operand(t["ops"][0], pos=(bi, "term")))) or \
-                (t["t"] == "assert" and t["kind"] == "BoundsCheck"):
-            idx_alts += list(alts(T.operand(t["ops"][1], pos=(bi, "term"))))
+    for r in alts(T.returns()):
+        if not (r[0] == "agg" and r[2] == "Some"):
+            continue
+        for x in walk(r):
+            if isinstance(x, tuple) and x and x[0] == "index" and any(is_call(y, "::timestamps") for y in walk(x[1])):
+                idx_alts += list(alts(x[2]))
     key = "next: yielded index comes from the search"
     if not idx_alts:
         rep.violation(rule, key, "anchor missing: no indexing of the transition table found", f.loc())
@@ -433,6 +437,87 @@ def handover_civil(rep, prog, rule="HANDOVER"):
         else:
             rep.violation(rule, key, "the POSIX rule's answer is returned without testing its candidate instants against the last recorded "
                           "transition: a fold (or offset) the rule reports for an instant before that transition contradicts the recorded data", loc)
+
+
+def noop_skip(rep, prog, rule="NOOP-SKIP"):
+    """TZif data contains entries that change nothing; the transition iterators must not yield them"""
+    rep.rule(rule, "TZif files contain transition entries after which offset, DST flag and abbreviation are what they were before "
+                   "(zic writes one at 2^31-1 into fat files, and slim files can end with one), so Tzif::next_transition and "
+                   "Tzif::previous_transition - which must yield exactly the instants where that information changes - compare the "
+                   "local time type of the candidate entry with that of the entry before it (offset, is_dst and designation) inside "
+                   "the loop that moves the index: decided as 'a loop block of the function evaluates, directly or through a crate "
+                   "function it calls, equality comparisons between local_time_type(i) and local_time_type(j), i != j, on all "
+                   "three components'")
+    base = "jiff::tz::tzif::Tzif::<STR, ABBREV, TYPES, TIMESTAMPS, STARTS, ENDS, INFOS>::"
+
+    def aspects_of(g):
+        """which components of two *different* local time types g compares for equality"""
+        T = Terms(g)
+        cfg = mir.CFG(g)
+        terms = list(alts(T.returns()))
+        for bi, b in enumerate(g.blocks):
+            t = b["term"]
+            if t["t"] == "switch" and bi in cfg.reachable():
+                terms.append(T.operand(t["op"], 0, (bi, "term")))
+        got = set()
+        for tm in terms:
+            for x in walk(tm):
+                if not (isinstance(x, tuple) and x):
+                    continue
+                if x[0] == "bin" and x[1] in ("Eq", "Ne") and len(x) == 4:
+                    a, b = x[2], x[3]
+                elif x[0] == "call" and x[1].rsplit("::", 1)[-1] in ("eq", "ne") and len(x[2]) == 2:
+                    a, b = x[2]
+                else:
+                    continue
+                la = [y for y in walk(a) if is_call(y, "::local_time_type")]
+                lb = [y for y in walk(b) if is_call(y, "::local_time_type")]
+                if not la or not lb or la[0] == lb[0]:
+                    continue
+                for side in (a, b):
+                    for y in walk(side):
+                        if isinstance(y, tuple) and y and y[0] == "field" and y[2] in ("offset", "is_dst"):
+                            got.add(y[2])
+                        if is_call(y, "::designation"):
+                            got.add("designation")
+        return got
+
+    n = 0
+    for name in ("next_transition", "previous_transition"):
+        f = prog.fns.get(base + name)
+        if f is None:
+            rep.anchor_missing("tz::tzif::Tzif::" + name)
+            continue
+        n += 1
+        cfg = mir.CFG(f)
+        loop_blocks = {bi for bi in cfg.reachable() if any(cfg.can_reach(sx, bi) for sx in cfg.succ[bi])}
+        found = set()
+        if loop_blocks:
+            found |= set()  # direct comparisons inside the function itself count only when the switch sits in a loop
+            T = Terms(f)
+        for bi, t in mir.iter_calls(f):
+            if bi not in loop_blocks:
+                continue
+            g = prog.fns.get(t.get("path", "")) or prog.fns.get("jiff::" + t.get("path", ""))
+            if g is not None and g.crate == "jiff":
+                found |= aspects_of(g)
+        if loop_blocks:
+            # inline form: comparisons evaluated by switches that are themselves in the loop
+            sub = aspects_of(f)
+            sw_in_loop = any(f.blocks[bi]["term"]["t"] == "switch" for bi in loop_blocks)
+            if sub and sw_in_loop:
+                found |= sub
+        key = name + ": entries that change nothing are skipped"
+        need = {"offset", "is_dst", "designation"}
+        if need <= found:
+            rep.ok(rule, key, how="%d loop block(s); adjacent local time types compared on %s" % (len(loop_blocks), sorted(found)), loc=f.loc())
+        elif not loop_blocks:
+            rep.violation(rule, key, "the entry found by the binary search is yielded as it is (no loop moves the index past entries "
+                          "that change nothing): following()/preceding() report the no-op entries zic writes (e.g. 2038-01-19T03:14:07Z "
+                          "in fat files), and slim and fat compilations of one zone disagree", f.loc())
+        else:
+            rep.violation(rule, key, "the index loop does not compare adjacent local time types on %s" % sorted(need - found), f.loc())
+    rep.floor(rule + " functions", n, 2)
 
 
 def floor_print(rep, prog, rule="FLOOR-PRINT"):
